@@ -40,7 +40,8 @@ ASSUMPTIONS = [
     "re-inserted (the library returns a zero placeholder)",
 ]
 
-HEADER = adcio.COQ_HEADER3
+HEADER = adcio.COQ_HEADER3 + \
+    "From ADC Require Import Core.Unfold Models.Itmd.\n"
 SPECIAL = {"e": numeric.orb_energy_special}
 
 
@@ -83,6 +84,64 @@ def expected_expansion(term, itmds, fully):
         else:
             res = res * f
     return res, found
+
+
+def itmd_name_of(atom):
+    """longname (default names) of a tensor atom, via the library's Obj"""
+    from adcgen.expr_container import Expr as E_
+    if atom[0] != "T":
+        return None
+    _, kind, name, bks, up, lo = atom
+    import re
+    if kind == "KAmp" and re.fullmatch(r"t\d+(cc)?", name):
+        return f"t{len(up)}_{name[1:].replace('cc', '')}"
+    if name.startswith("p") and re.fullmatch(r"p\d+", name):
+        sp = "".join(i.space[0] for i in list(up) + list(lo))
+        return f"p0_{name[1:]}_{sp}"
+    if name.startswith("t2eri"):
+        return f"t2eri_{name[5:]}"
+    if name == "t2sq":
+        return "t2sq"
+    return None
+
+
+def sym_indices(atom):
+    """sympy indices of the tensor in Obj.idx order"""
+    _, kind, name, bks, up, lo = atom
+    idx = (list(lo) + list(up)) if kind == "KAmp" else (list(up) + list(lo))
+    return get_symbols([i.name for i in idx])
+
+
+def coq_unfolding(E, itmds, fully, ictx):
+    """steps for ADC.Models.Itmd.unfold_expr mirroring it on pyterms; returns
+    (coq text of the steps, resulting pyterms)"""
+    cur = adcio.conv_expr(Expr(E.sympy, real=True).expand().make_real(), ictx)
+    flags = [[itmd_name_of(a) if not inv else None for a, inv in t[1]]
+             for t in cur]
+    steps = []
+    i = 0
+    while i < len(cur):
+        pos = next((k for k, nm in enumerate(flags[i])
+                    if nm is not None and nm in itmds), None)
+        if pos is None:
+            i += 1
+            continue
+        c, facs = cur[i]
+        atom = facs[pos][0]
+        body_e = itmds[flags[i][pos]].expand_itmd(
+            indices=sym_indices(atom), fully_expand=fully)
+        body = adcio.conv_expr(Expr(body_e.sympy, real=True).expand()
+                               .make_real(), ictx)
+        rest = facs[:pos] + facs[pos + 1:]
+        rflags = flags[i][:pos] + flags[i][pos + 1:]
+        new = [(c * cb, list(fb) + rest) for cb, fb in body]
+        newflags = [[None] * len(fb) + rflags for cb, fb in body]
+        cur[i:i + 1] = new
+        flags[i:i + 1] = newflags
+        steps.append((i, pos, body))
+    txt = adcio.coq_list(f"({i}%nat, {p_}%nat, {adcio.coq_expr(b)})"
+                         for i, p_, b in steps)
+    return txt, cur, len(steps)
 
 
 def run(ctx):
@@ -139,13 +198,30 @@ def run(ctx):
                           f"expand_intermediates raised {ex!r}",
                           {"expr": str(e), "fully": fully}, False)
             continue
-        want = 0
-        for tm in Add.make_args(E.sympy):
-            w, _ = expected_expansion(tm, itmds, fully)
-            want += w
-        add(f"expand:{'full' if fully else 'once'}:{name}", got,
-            Expr(want, real=True, target_idx=tg), tg,
-            sample={"expr": str(e)[:200], "fully": fully})
+        ictx = adcio.IdxCtx()
+        try:
+            steps_txt, unfolded, nsteps = coq_unfolding(E, itmds, fully, ictx)
+            p_in = adcio.conv_expr(Expr(E.sympy, real=True).expand()
+                                   .make_real(), ictx)
+            p_lib = adcio.conv_expr(Expr(got.sympy, real=True).expand()
+                                    .make_real(), ictx)
+        except adcio.Unsupported as ex:
+            ctx.note(f"expand case outside the fragment: {ex}")
+            continue
+        tgc = [ictx.conv(x) for x in tg]
+        pr = EQ.Pair(None, None, [], f"expand:{'full' if fully else 'once'}:"
+                     f"{name}", special=SPECIAL, frac="e")
+        pr.p1, pr.p2, pr.tg = unfolded, p_lib, tgc
+        tgl = adcio.coq_list(x.coq() for x in tgc)
+        pr.coq1 = (f"(match unfold_expr {tgl} {steps_txt} "
+                   f"{adcio.coq_expr(p_in)} with Some (e', _) => e' "
+                   f"| None => [Term (1#1)%Q [(ASymb \"unfold_failed\", "
+                   f"false)]] end)")
+        pr.e1, pr.e2 = E, got
+        pairs.append(pr)
+        ctx.case(key=(pr.label, str(e)[:400]), nontrivial=nsteps > 0,
+                 sample={"expr": str(e)[:200], "fully": fully,
+                         "unfold_steps": nsteps}, kind="expand")
 
     # ---- (b) factor_intermediates, (c) reduce_expr --------------------------
     fact = sys.modules["adcgen.factor_intermediates"].factor_intermediates
@@ -222,10 +298,10 @@ def run(ctx):
             ctx.obligation(f"{p.label}: inside the validator fragment", False,
                            p.err)
             continue
-        if not ctx.obligation(f"{p.label}: {str(p.e2.sympy)[:60]}", p.ok,
-                              p.err):
+        e2s = str(getattr(p.e2, "sympy", p.e2))
+        if not ctx.obligation(f"{p.label}: {e2s[:60]}", p.ok, p.err):
             ctx.violation(
-                f"C11:{p.label}:{str(p.e2.sympy)[:140]}",
+                f"C11:{p.label}:{e2s[:140]}",
                 f"{p.label.split(':')[0]}: result not proved equal in value "
                 "to the expected expansion",
                 {"relation": p.label, "case": EQ.describe(p, 1500),
